@@ -317,6 +317,10 @@ def build_e2e(ctx):
             if v > 0 and rng.random() < 0.5:
                 for _ in range(rng.randint(1, 3)):
                     dele.append([rng.randrange(n_eff), rng.choice(["N", "CA", "C", "O", "O", "C"])])
+            if v == 1 and n_eff > 6:
+                # every file once with backbone atoms missing in the INTERIOR of the chain (complete residues on both sides):
+                # the incomplete residue must stay in place ('NA') and its neighbours must not become sequence neighbours
+                dele = [[rng.randrange(2, n_eff - 2), rng.choice(["O", "C", "N", "CA"])] for _ in range(rng.randint(2, 3))]
             nfr = 1 if v == 0 else rng.choice([1, 2, 3, 5, 6])
             sched = None
             if nfr >= 3 and rng.random() < 0.7:
@@ -434,6 +438,16 @@ def run_tables(ctx, tabs, spec=False):
     for ti, (t, out) in enumerate(zip(tabs, res)):
         skip = [m != 0 for m in t["missing"]]
         py = full_res[ti].get("py")
+        if py is not None and py.get("subset_call") and "error" not in py:
+            # the wrapper handed only part of the residues to the (stubbed) kernel: the recorded dssp() output of the full
+            # table does not apply to that call; whether such a wrapper is right is decided by the end-to-end stream
+            ce1 = ctx.notes.setdefault("coverage_extra", {})
+            ce1["pylayer_tables_skipped_subset_call"] = ce1.get("pylayer_tables_skipped_subset_call", 0) + 1
+            py = None
+        if py is not None and "error" in py:
+            ctx.fail("md.compute_dssp raises on a topology with chains / incomplete residues (kernel stubbed)", dict(t, kind="table"),
+                     observed=py, expected="one code per residue per frame", tags={"stage": "pylayer", "what": "raises"})
+            py = None
         if py is not None and (not py["args_ok"] or py["shape"] != [len(t["frames"]), t["n"]]):
             ctx.fail("dssp.py hands wrong chain ids / incomplete-residue indices to _dssp or returns a wrong shape",
                      dict(t, kind="table"), observed=py, expected="chain index per residue, -1 for absent N/CA/C/O",
